@@ -128,6 +128,9 @@ pub fn split_footnotes(lines: &[String], n: usize, width: usize, wrap: bool) -> 
     if lines[..start].iter().any(|l| l.starts_with("[1]: ")) {
         return Err("more than one footnote block".into());
     }
+    if let Some(i) = lines[start..].iter().position(|l| l.trim().is_empty()) {
+        return Err(format!("blank line inside or after the footnote list (line {} of the list)", i));
+    }
     let mut entries: Vec<String> = vec![];
     let mut k = 1;
     for l in &lines[start..] {
